@@ -61,7 +61,7 @@ def oracle_single(case, out):
                     t["polls"] += 1
                 ticks.append((ids, len(T)))
                 # every task that wakes itself and is still running is hot again
-                want_hot = any(t["mode"] == 1 and not t["stopped"] and
+                want_hot = any(t["mode"] in (1, 2) and not t["stopped"] and
                                (t["end"] == 2 or t["polls"] <= t["n"]) for t in T)
                 if want_hot and not hot:
                     return "tick reported no hot task although a self-waking task is still running"
@@ -142,7 +142,7 @@ def oracle_single(case, out):
     # no starvation: a running self-waking task is polled at least once in any
     # ceil(L / max_interval) consecutive ticks (L = tasks spawned so far)
     for i, t in enumerate(T):
-        if t["mode"] != 1:
+        if t["mode"] not in (1, 2):
             continue
         last = t["selfwake_from"] - 1
         seen = 0
